@@ -19,5 +19,8 @@ for p in sorted(glob.glob(f"{root}/checks/*/check.json")):
 tab = "| id | engine | last committed evidence | seeded changes (independent red team) reported by this check |\n|---|---|---|---|\n" + "\n".join(rows)
 d = open(f"{root}/DESIGN.md").read()
 d = re.sub(r"(<!-- BEGIN-ASBUILT-TABLE -->).*?(<!-- END-ASBUILT-TABLE -->)", lambda m: m.group(1) + "\n" + tab + "\n" + m.group(2), d, flags=re.S)
+kf = json.load(open(f"{root}/known_findings.json"))
+fx = "\n".join("* " + x.replace("fixed: ", "", 1) for x in kf.get("fixed", []))
+d = re.sub(r"(<!-- BEGIN-FIXED-LIST -->).*?(<!-- END-FIXED-LIST -->)", lambda m: m.group(1) + "\n" + fx + "\n" + m.group(2), d, flags=re.S)
 open(f"{root}/DESIGN.md", "w").write(d)
 print(len(rows), "rows")
